@@ -280,9 +280,11 @@ def c17(ctx, t0):
     res = []
     if want(ctx, 'policy'):
         res.append(ovl_stage(ctx, 'policy', 'TestVerifC17', T(ctx, 900, 5400)))
+    if want(ctx, 'policy-after-reload'):
+        res.append(ovl_stage(ctx, 'policy-after-reload', 'TestVerifC17Reload', T(ctx, 300, 900)))
     floors = {'policy_pass': (counters(res, 'policy_pass'), 50), 'policy_fail': (counters(res, 'policy_fail'), 50),
               'condition_strings:invalid': (counters(res, 'condition_strings:invalid'), 40), 'write_attempts:cli-add': (counters(res, 'write_attempts:cli-add'), 10),
-              'write_attempts:http-update-oldpw': (counters(res, 'write_attempts:http-update-oldpw'), 5)}
+              'write_attempts:http-update-oldpw': (counters(res, 'write_attempts:http-update-oldpw'), 5), 'after_reload_probes': (counters(res, 'after_reload_probes'), 100)}
     return finish(ctx, 'exploration', res, COMMON_ASSUME + [
         'the zxcvbn library is trusted: the property defines the policy by it; the reference calls zxcvbn.PasswordStrength(pw, [user, "whawty"]) itself and applies the configured comparison',
         'condition strings in a common number syntax other than plain decimal (1e9, 40.5, +3, 03, 0x..) may be refused or accepted, but if accepted must be enforced with the written value'], floors, t0)
